@@ -178,6 +178,12 @@ def root_cause(kind, m):
         while x[0] == "op" and x[1] in ROT and len(x[2]) == 2:
             ws.add(swidth(x[2][1]))
             x = x[2][0]
+            # the rule sees its operand after simplification: (A <<< c1) << 0 is (A <<< c1)
+            try:
+                from miasmx.expression.expression_helper import expr_simp
+                x = exprgen.to_script(expr_simp(exprgen.build(x)))
+            except Exception:
+                pass
         if len(ws) > 1:
             return "rotate-merge rule applied to counts of different widths"
     return shape(m)
